@@ -3,6 +3,7 @@
 mod checks;
 mod checks2;
 mod checks3;
+mod checks4;
 mod gfp;
 mod numtypes;
 mod dd;
@@ -108,6 +109,24 @@ fn main() {
                     0
                 }
             }
+        }
+        "debug-exact" => {
+            // list the depth<=1 trees whose exact check is not judged, with the offending constant
+            let all = props::c12::depth1_trees(256);
+            let mut shown = 0;
+            for (idx, t) in all.iter().enumerate() {
+                let n = trees::tree_len(t);
+                let c = types::Case::new("C12", "exact", types::Planner::Scalar, types::Ty::F64, types::Dir::Fwd, n)
+                    .with_source(types::Source::Tree(t.clone()))
+                    .with_input(types::InputSpec::fam("random-field", idx as u64));
+                if let types::Outcome::Skipped { reason } = props::run_case(&c) {
+                    if reason.contains("exact oracle") && shown < 25 {
+                        println!("{} :: {} :: undecodable={:?}", trees::describe(t), reason, gfp::undecodable());
+                        shown += 1;
+                    }
+                }
+            }
+            0
         }
         "selfcheck" => match refdft::self_check(seed) {
             Ok((a, b)) => {
